@@ -213,7 +213,9 @@ func c11state(rg *rigT, sw string) (string, int) {
 			i = j
 		}
 		for _, x := range es {
-			ik = append(ik, x.k)
+			// key and the expiry the index entry itself carries: an entry that points at a stale object shows another
+			// expiry (or body) than the record of that key
+			ik = append(ik, fmt.Sprintf("%s@%+d", x.k, x.e-c11epoch))
 		}
 	}
 	return strings.Join(recs, " ") + " | expiry-index=" + strings.Join(ik, ","), claimed
@@ -234,6 +236,8 @@ var c11progs = map[string][][2]string{
 		{"PatchExpired(s=x,2)", "Patch(r1:s=y)"},
 		{"ShiftExpired(1)", "PatchExpired(1)"},
 		{"ShiftMatching(s=x,1)", "PatchExpired(1)"},
+		// a record deleted and created again by the other client while a claim is under way
+		{"PatchExpired(2)", "Delete(r1)+Renew(r1)"},
 		// the same with the expiry / creation-time / field indexes not built yet (first use builds them concurrently)
 		{"cold:ShiftExpired(2)", "ShiftExpired(2)"},
 		{"cold:ShiftExpired(2)", "Delete(r1)"},
@@ -247,6 +251,25 @@ var c11progs = map[string][][2]string{
 		{"PatchExpired(2,cap2)", "Claim(r3,cap2)"},
 		{"PatchExpired(1,cap2)", "Claim(r1,cap2)"},
 	},
+}
+
+// c11runOps runs a '+'-joined list of operations one after the other and joins their answers.
+func c11runOps(ops map[string]c11op, names string, rg *rigT, sw string) string {
+	var out []string
+	for _, n := range strings.Split(names, "+") {
+		if n == "Claim(r1" || n == "r2,cap2)" { // "Claim(r1+r2,cap2)" is one operation whose name contains '+'
+			continue
+		}
+		out = append(out, ops[n].run(rg, sw))
+	}
+	return strings.Join(out, " ; ")
+}
+
+func c11split(names string) []string {
+	if _, single := c11ops()[names]; single {
+		return []string{names}
+	}
+	return strings.Split(names, "+")
 }
 
 func c11NoPreempt(label string) bool {
@@ -285,7 +308,7 @@ func c11main(t *testing.T, prop string) {
 		what = "cap-bearing operations (cap filter st=claimed, MaxMatching 2, one record claimed beforehand)"
 		inv = "the number of records matching the cap filter is never above the cap afterwards"
 	}
-	r.Rule = fmt.Sprintf("%s: two client threads, one request each, on an in-memory swamp of the in-process server holding three expired records r1,r2 (s=x) and r3 (s=y), a claimed unexpired record r4 and a record z that no request touches; the expiry, creation-time and field indexes are built before the clients start, except in the programs marked cold:, where the first use builds them concurrently; %d programs %v; EVERY schedule with at most %d preemptions at the scheduling points of the claim / patch / delete / save paths, the beacons, the record guard and the cap mutex; the server is rebuilt for every execution. Oracle: an execution whose outcome (both responses and the final state: every record with its body fields and expiry class, and the listing of the expiry index) equals the outcome of running the same two requests sequentially on the real server in one of the two orders is accepted outright; any other outcome is judged by the clauses of the property: %s; every record returned by a matching-shift matches its filter and every record returned by an expired-shift was expired, as shown by the returned copy; a record answered DELETED is not also returned by a shift and is absent afterwards; shifted records are absent afterwards; the expiry index lists exactly the records that have an expiry, each once (a stale or duplicate entry is what a later claim would hand out). Non-trivial = executions with at least one preemption", what, len(progs), pn, bound, inv)
+	r.Rule = fmt.Sprintf("%s: two client threads, one request each (two programs: the second client deletes a record and creates it again), on an in-memory swamp of the in-process server holding three expired records r1,r2 (s=x) and r3 (s=y), a claimed unexpired record r4 and a record z that no request touches; the expiry, creation-time and field indexes are built before the clients start, except in the programs marked cold:, where the first use builds them concurrently; %d programs %v; EVERY schedule with at most %d preemptions at the scheduling points of the claim / patch / delete / save paths, the beacons, the record guard and the cap mutex; the server is rebuilt for every execution. Oracle: an execution whose outcome (both responses and the final state: every record with its body fields and expiry class, and the listing of the expiry index) equals the outcome of running the same two requests sequentially on the real server in one of the two orders is accepted outright; any other outcome is judged by the clauses of the property: %s; every record returned by a matching-shift matches its filter and every record returned by an expired-shift was expired, as shown by the returned copy; a record answered DELETED is not also returned by a shift and is absent afterwards; shifted records are absent afterwards; the expiry index lists exactly the records that have an expiry, each once (a stale or duplicate entry is what a later claim would hand out). Non-trivial = executions with at least one preemption", what, len(progs), pn, bound, inv)
 	r.Assumptions = []string{"sequentially consistent memory (scheduling points at synchronisation operations)", "two requests per program: linearizability reduces to 'equals one of the two sequential outcomes'", "the sequential behaviour itself is the reference (sequential defects are the subject of C06/C30)"}
 	r.Parallel(16, "Test"+prop, func() {
 		for pi, pr := range progs {
@@ -296,11 +319,27 @@ func c11main(t *testing.T, prop string) {
 			if cold {
 				tag = "cold-index:"
 			}
-			// reference outcomes
+			// reference outcomes: every interleaving of the two clients' request lists, run sequentially on the real server
 			adm := map[string]bool{}
 			var admL []string
-			for _, order := range [][2]int{{0, 1}, {1, 0}} {
-				var resp [2]string
+			la, lb := c11split(pr[0]), c11split(pr[1])
+			var orders [][]int // sequence of client ids
+			var gen func(i, j int, cur []int)
+			gen = func(i, j int, cur []int) {
+				if i == len(la) && j == len(lb) {
+					orders = append(orders, append([]int(nil), cur...))
+					return
+				}
+				if i < len(la) {
+					gen(i+1, j, append(cur, 0))
+				}
+				if j < len(lb) {
+					gen(i, j+1, append(cur, 1))
+				}
+			}
+			gen(0, 0, nil)
+			for _, order := range orders {
+				var parts [2][]string
 				var st string
 				x := seqRun(func() {
 					rg := newRig(true)
@@ -309,14 +348,21 @@ func c11main(t *testing.T, prop string) {
 					if !cold {
 						c11warm(rg, sw)
 					}
-					resp[order[0]] = ops[pr[order[0]]].run(rg, sw)
-					resp[order[1]] = ops[pr[order[1]]].run(rg, sw)
+					idx := [2]int{}
+					for _, who := range order {
+						l := la
+						if who == 1 {
+							l = lb
+						}
+						parts[who] = append(parts[who], ops[l[idx[who]]].run(rg, sw))
+						idx[who]++
+					}
 					st, _ = c11state(rg, sw)
 				})
 				if x.Deadlock || len(x.Panics) > 0 {
 					r.Fail("claims", "sequential-run-fails", fmt.Sprintf("program %v in order %v: deadlock=%v panics=%v", pr, order, x.Deadlock, x.Panics), nil)
 				}
-				o := fmt.Sprintf("%s -> %s ; %s -> %s ; %s", pr[0], resp[0], pr[1], resp[1], st)
+				o := fmt.Sprintf("%s -> %s ; %s -> %s ; %s", pr[0], strings.Join(parts[0], " ; "), pr[1], strings.Join(parts[1], " ; "), st)
 				if !adm[o] {
 					adm[o] = true
 					admL = append(admL, o)
@@ -336,7 +382,13 @@ func c11main(t *testing.T, prop string) {
 				var ths []*vrt.Thread
 				for ti := 0; ti < 2; ti++ {
 					ti := ti
-					ths = append(ths, vrt.Go(fmt.Sprintf("T%d", ti), func() { resp[ti] = ops[pr[ti]].run(rg, sw) }))
+					ths = append(ths, vrt.Go(fmt.Sprintf("T%d", ti), func() {
+						var parts []string
+						for _, n := range c11split(pr[ti]) {
+							parts = append(parts, ops[n].run(rg, sw))
+						}
+						resp[ti] = strings.Join(parts, " ; ")
+					}))
 				}
 				for _, th := range ths {
 					vrt.Join(th)
@@ -409,15 +461,21 @@ func c11main(t *testing.T, prop string) {
 							if v, got := a["r1"]; got && v != "PATCHED" {
 								why = append(why, "record-returned-to-a-claimer-and-reported-deleted:r1")
 							}
-							if strings.Contains(st, "r1(") || strings.Contains(","+st[strings.Index(st, "expiry-index=")+13:]+",", ",r1,") {
+							if strings.Contains(st, "r1(") || strings.Contains(","+st[strings.Index(st, "expiry-index=")+13:], ",r1@") {
 								why = append(why, "deleted-record-present-afterwards:r1")
+							}
+						}
+						if pr[1] == "Delete(r1)+Renew(r1)" {
+							// whatever the claim did before, the record the other client created last is the live one
+							if !strings.Contains(st, "r1(s=x,st=free,exp=future+9000)") {
+								why = append(why, "re-created-record-overwritten-by-a-stale-claim:r1")
 							}
 						}
 						// every shifted record is gone afterwards
 						for i := 0; i < 2; i++ {
 							if strings.HasPrefix(pr[i], "Shift") {
 								for k := range recv(i) {
-									if strings.Contains(st, k+"(") && !(pr[1-i] == "Renew(r1)" && k == "r1") {
+									if strings.Contains(st, k+"(") && !(strings.HasSuffix(pr[1-i], "Renew(r1)") && k == "r1") {
 										why = append(why, "shifted-record-present-afterwards:"+k)
 									}
 								}
@@ -428,7 +486,27 @@ func c11main(t *testing.T, prop string) {
 							have := map[string]int{}
 							for _, k := range strings.Split(st[strings.Index(st, "expiry-index=")+13:], ",") {
 								if k != "" {
-									have[k]++
+									ke := strings.SplitN(k, "@", 2)
+									have[ke[0]]++
+									if len(ke) == 2 && !strings.Contains(st, ke[0]+"(") {
+										continue
+									}
+									// the entry's expiry must be the record's expiry
+									if len(ke) == 2 {
+										want := ""
+										for _, rec := range strings.Fields(st[:strings.Index(st, " | ")]) {
+											if strings.HasPrefix(rec, ke[0]+"(") {
+												if i := strings.Index(rec, "exp=future"); i >= 0 {
+													want = strings.TrimSuffix(rec[i+len("exp=future"):], ")")
+												} else if strings.Contains(rec, "exp=past") {
+													want = "past"
+												}
+											}
+										}
+										if want != "" && want != "past" && want != ke[1] {
+											why = append(why, fmt.Sprintf("expiry-index-entry-is-stale:%s", ke[0]))
+										}
+									}
 								}
 							}
 							for _, rec := range strings.Fields(st[:strings.Index(st, " | ")]) {
